@@ -18,6 +18,8 @@
  */
 use erbium_net::addr::NetAddr;
 use erbium_net::udp;
+#[cfg(erbium_verif)]
+use erbium_net::sim::tokio;
 
 const HOURS_24: std::time::Duration = std::time::Duration::from_secs(24 * 3600);
 const HOURS_36: std::time::Duration = std::time::Duration::from_secs(36 * 3600);
